@@ -14,6 +14,7 @@ import Proofs.Lemmas.C13Perm
 import Proofs.Lemmas.C13F64Inst
 import Proofs.Lemmas.C13Interp
 import Proofs.Lemmas.C13Mid
+import Proofs.Lemmas.C13Sort
 
 namespace C13
 open Math
@@ -220,13 +221,15 @@ theorem median_samples_above_spec (tab : List (Nat × Nat)) (have_ : Nat) :
 
 /-- **alpha_carried** — both models that perform a test return the threshold the FIRST sample was
 created with, whatever the external test reports (error or p-value). -/
-theorem alpha_carried {α : Type} (s1 s2 : Sample α) :
+theorem alpha_carried {α : Type} [Val α] (s1 s2 : Sample α) :
     (∀ u, (Nothing.compare s1 s2 u).alpha = s1.thresholds.compareAlpha) ∧
     (∀ w, (Normal.compare s1 s2 w).alpha = s1.thresholds.compareAlpha) := by
   constructor
   · intro u
     unfold Nothing.compare
-    cases u.differs <;> rfl
+    split
+    · rfl
+    · cases u.differs <;> rfl
   · intro w
     unfold Normal.compare
     cases w <;> rfl
@@ -375,6 +378,25 @@ theorem float_order (a b : Bits) (ha : isFinite a = true) (hb : isFinite b = tru
   ⟨lt_iff_sval a b ha hb, eq_iff_sval a b ha hb, by
     rw [lt_iff_sval a b ha hb, eq_iff_sval a b ha hb, lt_iff_sval b a hb ha]
     exact lt_trichotomy _ _⟩
+
+open F64 in
+/-- **new_sample_order_independent** (fix F27) — for NaN-free float64 measurements the sample
+`NewSample` builds depends only on the measurements as a multiset, not on their arrival order:
+bit for bit, the two zeros included (−0 is placed before +0; only bit-identical values tie). Hence
+every summary and comparison computed from it is invariant under reordering, sign of zero included. -/
+theorem new_sample_order_independent (v1 v2 : List Bits) (t : Thresholds)
+    (hn : ∀ v ∈ v1, isNaN v = false) (h : v1.Perm v2) : newSample v1 t = newSample v2 t := by
+  have hn2 : ∀ v ∈ v2, isNaN v = false := fun v hv => hn v (h.symm.subset hv)
+  obtain ⟨l1, rfl⟩ := lift_nn v1 hn
+  obtain ⟨l2, rfl⟩ := lift_nn v2 hn2
+  show (⟨sortVals (α := Bits) (l1.map NN.val), t⟩ : Sample Bits) = ⟨sortVals (α := Bits) (l2.map NN.val), t⟩
+  rw [sortVals_nn_val, sortVals_nn_val, sortVals_nn_unique (perm_lift h)]
+
+/-- the zeros: both arrival orders of {+0, −0} give the sample [−0, +0] -/
+example : (newSample (α := F64.Bits) [F64.posZero, F64.negZero] ⟨0⟩).values =
+          (newSample (α := F64.Bits) [F64.negZero, F64.posZero] ⟨0⟩).values :=
+  congrArg Sample.values (new_sample_order_independent [F64.posZero, F64.negZero] [F64.negZero, F64.posZero] ⟨0⟩
+    (by decide) (List.Perm.swap _ _ _))
 
 open F64 in
 /-- **new_sample_f64** — `NewSample` on finite float64 measurements: the same measurements, in
@@ -541,12 +563,16 @@ theorem nothing_summary_f64_even (vals : List Bits) (t : Thresholds) (conf : Bit
 is symmetric in the two one-sided results, for all bit patterns; consequently exchanging the samples
 (which exchanges the two one-sided calls) leaves the p-value of `AssumeNothing.Compare` unchanged
 whenever both two-sided calls succeed. -/
-theorem compare_p_swap {α : Type} (s1 s2 : Sample α) (a b : TestResult) (pd pd' : F64.Bits)
+theorem compare_p_swap {α : Type} [Val α] (s1 s2 : Sample α) (a b : TestResult) (pd pd' : F64.Bits)
     (ha : ∃ p, a = .ok p) (hb : ∃ p, b = .ok p) :
     (Nothing.compare s1 s2 ⟨.ok pd, a, b⟩).p = (Nothing.compare s2 s1 ⟨.ok pd', b, a⟩).p := by
   obtain ⟨pa, rfl⟩ := ha
   obtain ⟨pb, rfl⟩ := hb
-  simp only [Nothing.compare, Nothing.combine, fmin_comm pa pb]
+  unfold Nothing.compare
+  rw [Bool.or_comm (Nothing.hasNaN s2.values)]
+  split
+  · rfl
+  · simp only [Nothing.combine, fmin_comm pa pb]
 
 /-! ## instances of the hypotheses, and the float64 limits of the exact-arithmetic theorems -/
 
@@ -560,6 +586,7 @@ instance ratVal : Val Rat where
 instance : LawfulInterp Rat where
   lt_iff a b := by simp [Val.lt]
   eq_iff a b := by simp [Val.eq]
+  before_irrefl _ := rfl
   interp_eq _ _ _ := rfl
 
 /-- a sorted sample with ties: the exact model's centre is the smaller of the two modes, the
